@@ -50,6 +50,8 @@ var HandCorpus = []string{
 	"{{ null }}{{ true }}{{ false }}{{ none }}",
 	// sources that are also names (through the string loader a template's source is its name)
 	"twig", ".twig", "twig.twig", "a.twig", "js", "txt", ".js", ".", "..", "x.", ".txt.twig", "a/b.css", "html_attr", "t.url.twig",
+	// errors inside strings that hold interpolations
+	"{{ \"a#{b@c\" }}", "{{ \"a#{b @ c}d\" }}", "{{ \"a#{\"#{@\"}\" }}", "{{ \"a#{b}c#{d@\" }} tail {{ 1 }}", "{{ \"#{[1, @\" }}", "{{ a \"x#{b}y\" }}", "{% block \"n#{a}\" %}{% endblock %}",
 	// text hostility
 	"plain text with } and %} and #} and { and % and # inside",
 	"multi\nline\r\ntext {{ a\n+\nb }} and {% if\n x \n%}y{% endif %}",
